@@ -11,30 +11,30 @@ Definition C02_full : Prop := refines_reference.
 
 (* Every node a cut passes through on its way up - the cut itself, every enclosing
    conjunction / disjunction / not / time node - is committed (no_backtracking set). *)
-Theorem C02_cut_commits : forall kb fuel nd w nd' r w',
-  next kb fuel nd w = Ok (nd', r, true, w') -> node_nobt nd' = true.
+Theorem C02_cut_commits : forall kb bf fuel nd w nd' r w',
+  next kb bf fuel nd w = Ok (nd', r, true, w') -> node_nobt nd' = true.
 Proof. exact cut_commits. Qed.
 
 (* A committed node yields nothing beyond the answer being derived when the cut ran: the
    goals to the left of the cut are never re-tried, later alternatives are never tried. *)
-Theorem C02_nothing_after_the_cut : forall kb fuel nd w nd' r w',
-  next kb fuel nd w = Ok (nd', r, true, w') ->
+Theorem C02_nothing_after_the_cut : forall kb bf fuel nd w nd' r w',
+  next kb bf fuel nd w = Ok (nd', r, true, w') ->
   forall m fuel2 w2 rs nd2 w3,
-    ask_again kb fuel2 m nd' w2 = Ok (rs, nd2, w3) -> Forall (fun x => x = None) rs /\ w3 = w2.
+    ask_again kb bf fuel2 m nd' w2 = Ok (rs, nd2, w3) -> Forall (fun x => x = None) rs /\ w3 = w2.
 Proof. exact cut_then_nothing_more. Qed.
 
 (* The call that chose the clause: when a cut runs in the clause body, the call returns what
    the body returned (the answer being derived, or failure - no later clause is tried even
    when the goals after the cut failed) and is committed itself. *)
-Theorem C02_the_call_is_committed : forall kb f t ss c0 idx n w c1 sol w1 nd' r c w',
-  next kb f c0 w = Ok (c1, sol, true, w1) ->
-  next kb (S f) (NCall t ss false (Some c0) idx n) w = Ok (nd', r, c, w') ->
+Theorem C02_the_call_is_committed : forall kb bf f t ss c0 idx n w c1 sol w1 nd' r c w',
+  next kb bf f c0 w = Ok (c1, sol, true, w1) ->
+  next kb bf (S f) (NCall t ss false (Some c0) idx n) w = Ok (nd', r, c, w') ->
   node_nobt nd' = true /\ c = false /\ r = sol.
 Proof. exact cut_commits_the_call. Qed.
 
 (* A cut never affects the caller of that call or any sibling: a call reports no cut. *)
-Theorem C02_cut_is_local : forall kb fuel t ss nobt child idx n w nd' r c w',
-  next kb fuel (NCall t ss nobt child idx n) w = Ok (nd', r, c, w') -> c = false.
+Theorem C02_cut_is_local : forall kb bf fuel t ss nobt child idx n w nd' r c w',
+  next kb bf fuel (NCall t ss nobt child idx n) w = Ok (nd', r, c, w') -> c = false.
 Proof. exact call_absorbs_cut. Qed.
 
 (* non-vacuity: a(1) :- b(0), !, fail.  a(2).  b(0).  |- a($X) has no answer
@@ -45,14 +45,14 @@ Definition C02_demo : bool :=
                                mkRule (TComplex [TAtom [97%N]; TInt 2]) GNil]);
              ([98; 47; 49]%N, [mkRule (TComplex [TAtom [98%N]; TInt 0]) GNil])] in
   match make_base_node kb (GCall (TComplex [TAtom [97%N]; TVar 1 [36; 88]%N])) (mkWorld 1 false None []) with
-  | Ok (nd, w) => match next kb 30 nd w with Ok (nd1, None, false, _) => node_nobt nd1 | _ => false end
+  | Ok (nd, w) => match next kb 30 30 nd w with Ok (nd1, None, false, _) => node_nobt nd1 | _ => false end
   | _ => false
   end.
 Example C02_witness : C02_demo = true.
 Proof. vm_compute. reflexivity. Qed.
 
-Check C02_cut_commits : forall kb fuel nd w nd' r w',
-  next kb fuel nd w = Ok (nd', r, true, w') -> node_nobt nd' = true.
+Check C02_cut_commits : forall kb bf fuel nd w nd' r w',
+  next kb bf fuel nd w = Ok (nd', r, true, w') -> node_nobt nd' = true.
 
 Print Assumptions C02_cut_commits.
 Print Assumptions C02_nothing_after_the_cut.
